@@ -44,9 +44,8 @@ func vhGenKeyList() ([]sql.IndexedColumn, string) {
 func VerifGenCreateTable(sh int) VerifGen {
 	without := sh%2 == 1
 	ncols := 1 + (sh/2)%2
-	if verifTier() == 1 && verifChoice(2) == 1 {
-		ncols = 3
-	}
+	// (no larger bound in the thorough tier: the generator is a callee, the
+	// executor holds all of its outcomes at once — 3 columns needed > 48 GB)
 	ct := sql.CreateTableStmt{Table: "t", WithoutRowid: without}
 	text := "CREATE TABLE t ("
 	for i := 0; i < ncols; i++ {
